@@ -154,8 +154,15 @@ func vOutputs(r string, x string) []vCase {
 }
 
 func vRun(t *testing.T, prop string, check func(string) (bool, string)) {
-	rs := vStrings(3)
-	xs := vStrings(2)
+	vRunN(t, prop, check, 3, 2)
+}
+
+// vRunN enumerates redactables r of at most rn pieces (well-formed, line-safe) and tails x of at most xn
+// pieces, runs every producer of vOutputs on them and checks each output; it returns the number of outputs
+// checked and how many of them contain a marker (the non-trivial ones).
+func vRunN(t *testing.T, prop string, check func(string) (bool, string), rn, xn int) (cases, nontrivial int) {
+	rs := vStrings(rn)
+	xs := vStrings(xn)
 	n := 0
 	for _, r := range rs {
 		if !vWellFormed(r) || !vLineSafe(r) {
@@ -163,6 +170,10 @@ func vRun(t *testing.T, prop string, check func(string) (bool, string)) {
 		}
 		for _, x := range xs {
 			for _, c := range vOutputs(r, x) {
+				cases++
+				if strings.Contains(c.out, vS) {
+					nontrivial++
+				}
 				if ok, why := check(c.out); !ok {
 					vFail(t, prop, c.call, c.out, why)
 					n++
@@ -173,6 +184,14 @@ func vRun(t *testing.T, prop string, check func(string) (bool, string)) {
 			}
 		}
 	}
+	return
+}
+
+// vBounded prints the BOUNDED report line of a bounded stand-in.
+func vBounded(prop, law string, cases, nontrivial int, rule, bound string, exhaustive bool) {
+	m, _ := json.Marshal(map[string]interface{}{"property": prop, "law": law, "cases": cases, "nontrivial": nontrivial,
+		"nontrivial_rule": rule, "bound": bound, "exhaustive": exhaustive})
+	fmt.Printf("BOUNDED: %s\n", m)
 }
 
 var _ = bytes.Equal
